@@ -349,7 +349,23 @@ fn c04_step(b: &Built, g: &mut Inner, st: &mut State, from: usize, to: usize) {
                     );
                 }
             }
-            if output_over_for(g, b, owner, ev.t_in) {
+            // in a composed topology "the output" of the subscribing operator is ITS output edge
+            // (the tap below it), not the sink at the bottom: an operator that has not been told to
+            // stop yet may still subscribe (e.g. while the operator below is relaying an Error)
+            let over = match &b.topo {
+                Topo::Tree(_) => {
+                    let inst = b.info.ops.iter().find(|o| {
+                        o.inputs.iter().any(|l| matches!(l, Link::Puppet(id) if *id == p as usize))
+                            || matches!(o.kind, OpKind::Flatten(id) if id == p as usize)
+                    });
+                    match inst.and_then(|o| if owner >= 0 { edge_of_link(g, o.output, owner as usize) } else { None }) {
+                        Some(oe) => times(g, oe).over_at(ev.t_in),
+                        None => output_over_for(g, b, owner, ev.t_in),
+                    }
+                },
+                _ => output_over_for(g, b, owner, ev.t_in),
+            };
+            if over {
                 report(
                     g,
                     st,
@@ -719,7 +735,10 @@ fn c07_one(g: &mut Inner, st: &mut State, op: &str, u: UnOp, pe: EdgeId, se: Edg
             let cause = xs_ev[n - 1];
             let stops = evs(g, pe, Dir::Up, &[Kind::Terminate, Kind::Error]).into_iter().filter(|j| within(g, *j, cause)).count();
             bump(st, "c07.take-upstream-stop");
-            if stops != 1 {
+            // (if the source itself ended from inside the delivery of the nth item - a consumer that
+            // completes the source it listens to - there is nobody left to dispose: then zero)
+            let ended_inside = tp.dterm_ev >= 0 && within(g, tp.dterm_ev as usize, cause);
+            if stops != if ended_inside { 0 } else { 1 } {
                 report(
                     g,
                     st,
@@ -737,10 +756,15 @@ fn c07_one(g: &mut Inner, st: &mut State, op: &str, u: UnOp, pe: EdgeId, se: Edg
             // the nth item: sink completed and upstream disposed immediately, i.e. within the
             // delivery of the input that carried it
             let cause = xs_ev[n - 1];
+            // (or failed, if the source itself failed from inside that delivery)
+            let failed_inside = tp.dterm_ev >= 0
+                && g.events[tp.dterm_ev as usize].kind == Kind::Error
+                && within(g, tp.dterm_ev as usize, cause);
             let sink_done = ts.dterm_ev >= 0
-                && g.events[ts.dterm_ev as usize].kind == Kind::Terminate
+                && (g.events[ts.dterm_ev as usize].kind == Kind::Terminate || failed_inside)
                 && within(g, ts.dterm_ev as usize, cause);
-            let up_done = tp.uterm_ev >= 0 && within(g, tp.uterm_ev as usize, cause);
+            let up_done = (tp.uterm_ev >= 0 && within(g, tp.uterm_ev as usize, cause))
+                || (tp.dterm_ev >= 0 && within(g, tp.dterm_ev as usize, cause));
             if !sink_done {
                 report(
                     g,
